@@ -87,11 +87,17 @@ def regen_facts():
     return out
 
 
+def MODULES(prop):
+    """(directory, module) pairs holding the obligations of a property: property theorems, tie theorems, and the
+    frozen-body tie theorems where a hand-written model mirrors whole function bodies"""
+    return [("Props", prop), ("Tie", prop), ("Tie", prop + "Frozen")]
+
+
 def theorem_names(prop):
     """theorems of Props/Cxx.lean and Tie/Cxx.lean, fully qualified (tracks namespace / section nesting)"""
     names = []
-    for sub in ("Props", "Tie"):
-        p = os.path.join(LEAN, "TallyProofs", sub, prop + ".lean")
+    for sub, mod in MODULES(prop):
+        p = os.path.join(LEAN, "TallyProofs", sub, mod + ".lean")
         if not os.path.exists(p):
             continue
         stack = []  # (kind, name)
@@ -140,9 +146,9 @@ def lean_stage(prop, tier):
     """returns dict(ok, obligations, discharged, broken:[names], axioms:{}, log)"""
     res = {"ok": True, "obligations": 0, "discharged": 0, "broken": [], "axioms": {}, "log": "", "leanchecker": None}
     targets = ["Tally", "tallydrv"]
-    for sub in ("Tie", "Props"):
-        if os.path.exists(os.path.join(LEAN, "TallyProofs", sub, prop + ".lean")):
-            targets.append("TallyProofs.%s.%s" % (sub, prop))
+    mods = [(sub, mod) for sub, mod in MODULES(prop) if os.path.exists(os.path.join(LEAN, "TallyProofs", sub, mod + ".lean"))]
+    for sub, mod in mods:
+        targets.append("TallyProofs.%s.%s" % (sub, mod))
     rc, out, dt = run(["lake", "build"] + targets, cwd=LEAN, timeout=1800)
     res["log"] = out[-6000:]
     names = theorem_names(prop)
@@ -153,7 +159,7 @@ def lean_stage(prop, tier):
         failed = re.findall(r"^- (TallyProofs\.\S+|Tally\.\S+|Main\S*)", out, re.M)
         res["broken"] = failed or ["lake build"]
         # theorems of modules that still built are discharged; be conservative: count none of a failed module
-        ok_names = [n for (sub, n) in names if ("TallyProofs.%s.%s" % (sub, prop)) not in failed]
+        ok_names = [n for (sub, n) in names if not any(f.startswith("TallyProofs.%s.%s" % (sub, prop)) for f in failed)]
         if any(f.startswith("Tally.") or f.startswith("Main") for f in failed):
             ok_names = []
         res["discharged"] = len(ok_names)
@@ -169,9 +175,8 @@ def lean_stage(prop, tier):
     os.makedirs(audit_dir, exist_ok=True)
     apath = os.path.join(audit_dir, prop + ".lean")
     with open(apath, "w") as f:
-        for sub in ("Tie", "Props"):
-            if os.path.exists(os.path.join(LEAN, "TallyProofs", sub, prop + ".lean")):
-                f.write("import TallyProofs.%s.%s\n" % (sub, prop))
+        for sub, mod in mods:
+            f.write("import TallyProofs.%s.%s\n" % (sub, mod))
         for _, n in names:
             f.write("#print axioms %s\n" % n)
     rc, out, _ = run(["lake", "env", "lean", apath], cwd=LEAN, timeout=600)
